@@ -53,8 +53,9 @@ if mode == "pure":
     out["autobahn_file"] = autobahn.__file__
     out["uses_nvx"] = bool(aw.USES_NVX)
     out["selected"] = u8.Utf8Validator.__module__
-    out["table"] = list(u8.UTF8VALIDATOR_DFA)
-    out["consts"] = [u8.UTF8_ACCEPT, u8.UTF8_REJECT]
+    tbl = getattr(u8, "UTF8VALIDATOR_DFA", None)
+    out["table"] = list(tbl) if tbl is not None else None
+    out["consts"] = [getattr(u8, "UTF8_ACCEPT", None), getattr(u8, "UTF8_REJECT", None)]
     impls["py"] = u8.Utf8Validator
 else:
     sys.path.insert(0, job["nvxdir"])
